@@ -71,7 +71,7 @@ func analyseParserLoop(c *core.Ctx, want map[string]bool) {
 				if n, ok := pt.Elem().(*types.Named); ok && n.Obj().Name() == "ParserNode" {
 					// the loop head is the block with the Scan call
 					for _, in2 := range b.Instrs {
-						if call, ok := in2.(*ssa.Call); ok && isMethod(call.Call.StaticCallee(), "bufio", "Scanner", "Scan") {
+						if call, ok := in2.(*ssa.Call); ok && isMethod(core.Callee(&call.Call), "bufio", "Scanner", "Scan") {
 							nodePhi, loopHead = phi, b
 						}
 					}
@@ -85,7 +85,7 @@ func analyseParserLoop(c *core.Ctx, want map[string]bool) {
 	if nodePhi == nil {
 		for _, b := range psc.Blocks {
 			for _, in := range b.Instrs {
-				if call, ok := in.(*ssa.Call); ok && isMethod(call.Call.StaticCallee(), "bufio", "Scanner", "Scan") && isLoopHead(b) {
+				if call, ok := in.(*ssa.Call); ok && isMethod(core.Callee(&call.Call), "bufio", "Scanner", "Scan") && isLoopHead(b) {
 					loopHead = b
 				}
 				al, ok := in.(*ssa.Alloc)
@@ -427,7 +427,7 @@ func analyseParserLoop(c *core.Ctx, want map[string]bool) {
 			trimSet = args[1]
 			trims["line|"+args[1].Key()] = pos
 			return v, true
-		case callee != nil && callee.String() == "strings.Trim" && len(args) == 2 && frameInPkg(s, parserPkg):
+		case callee != nil && (callee.String() == "strings.Trim" || callee.String() == "strings.TrimRight" || callee.String() == "strings.TrimLeft") && len(args) == 2 && frameInPkg(s, parserPkg):
 			role := "other"
 			if st, ok := args[0].(*absint.Term); ok && st.Op == "slice" && len(st.Args) == 3 {
 				lo, hi := st.Args[1].Key(), st.Args[2].Key()
@@ -437,6 +437,29 @@ func analyseParserLoop(c *core.Ctx, want map[string]bool) {
 				case strings.Contains(lo, "LastIndex") && hi == "zero":
 					role = "qty"
 				}
+				// the two halves of a line that was trimmed as a whole need trimming at the cut only — provided the
+				// whole-line set covers what the half is trimmed with, and the trimmed end is the cut end
+				if callee.String() != "strings.Trim" {
+					base, isTrimmedLine := st.Args[0].(*absint.Term)
+					okSide := (role == "name" && callee.String() == "strings.TrimRight") || (role == "qty" && callee.String() == "strings.TrimLeft")
+					covered := false
+					if isTrimmedLine && base.Op == "call:strings.Trim" && len(base.Args) == 2 {
+						ls, ok1 := absConstString(base.Args[1])
+						hs, ok2 := absConstString(args[1])
+						covered = ok1 && ok2
+						for _, r := range hs {
+							if !strings.ContainsRune(ls, r) {
+								covered = false
+							}
+						}
+					}
+					if !okSide || !covered {
+						report("C04-R3", "trim-"+role, pos, "%s trims one end only of %s: the other end is clean only if it is an end of the line trimmed as a whole with a set that covers this one", callee.String(), args[0].Key())
+						role = "other"
+					}
+				}
+			} else if callee.String() != "strings.Trim" {
+				return nil, false
 			}
 			trims[role+"|"+args[1].Key()] = pos
 			return nil, false
@@ -895,4 +918,12 @@ func isLoopHead(b *ssa.BasicBlock) bool {
 		}
 	}
 	return false
+}
+
+// absConstString: the value of a string literal.
+func absConstString(v absint.Value) (string, bool) {
+	if c, ok := v.(absint.Const); ok && c.V != nil && c.V.Kind() == constant.String {
+		return constant.StringVal(c.V), true
+	}
+	return "", false
 }
